@@ -213,7 +213,7 @@ def lexAll (text : List Char) (eof : Bool) : Lexed :=
 /-! ### Commands -/
 
 inductive Cmd where
-  | simple (ws : List Word) (here : Option Nat)
+  | simple (ws : List Word) (here : Option (List Char))   -- words; contents of its here-document
   | ifc (cond thn els : List Cmd) (hasElse : Bool)
   | loop (untl : Bool) (cond body : List Cmd)
   | group (body : List Cmd)
@@ -235,6 +235,7 @@ structure PCfg where
   aliases : List (String × String)
   portable : Bool
   eof : Bool
+  bodies : List (List Char) := []      -- here-document contents of the text being parsed
   deriving Repr
 
 def lookupAlias (al : List (String × String)) (n : String) : Option String :=
@@ -285,9 +286,10 @@ def skipNl : List Tok → List Tok
   | ts => ts
 
 /-- words (and here-document operators) of a simple command -/
-def simpleWords : List Tok → List Word → Option Nat → (List Word × Option Nat × List Tok)
-  | .word w _ :: rest, ws, h => simpleWords rest (ws ++ [w]) h
-  | .here k :: rest, ws, _ => simpleWords rest ws (some k)
+def simpleWords (bodies : List (List Char)) :
+    List Tok → List Word → Option (List Char) → (List Word × Option (List Char) × List Tok)
+  | .word w _ :: rest, ws, h => simpleWords bodies rest (ws ++ [w]) h
+  | .here k :: rest, ws, _ => simpleWords bodies rest ws (some (bodies.getD k []))
   | ts, ws, h => (ws, h, ts)
 
 /-- an open parenthesis token: (immediately preceded by a word, immediately followed by `(`) -/
@@ -375,7 +377,7 @@ mutual
           | none =>
           match t with
           | .word _ _ | .here _ =>
-            let (ws, h, r) := simpleWords (t :: rest) [] none
+            let (ws, h, r) := simpleWords cfg.bodies (t :: rest) [] none
             -- `simple_command`: a command name ending with `:` is rejected in portable mode
             if cfg.portable && (match t with | .word w _ => endsWithColon w | _ => false) then .err else
             (match ws, h, r with
@@ -543,7 +545,7 @@ end
 
 /-- result of `Parser::command_line` on the text pulled so far -/
 inductive ParseRes where
-  | ok (cmds : List Cmd) (bodies : List (List Char))   -- `Ok(Some(list))`, all text consumed
+  | ok (cmds : List Cmd)                               -- `Ok(Some(list))`, all text consumed
   | none                                               -- `Ok(None)`: end of input, nothing to run
   | incomplete                                         -- needs another line
   | error                                              -- syntax error
@@ -560,14 +562,15 @@ def parseLine (cfg : PCfg) (text : List Char) : ParseRes :=
   | .error => .error
   | .incomplete => .incomplete
   | .ok =>
+    let cfg := { cfg with bodies := lx.bodies }
     match pList cfg (6 * lx.toks.length + 10) lx.toks with
     | .inc => .incomplete
     | .err => .error
     | .ok cs r =>
       match r with
-      | [.nl] => .ok cs lx.bodies
+      | [.nl] => .ok cs
       | .nl :: _ => .error            -- unreachable for line-by-line pulling (text ends at the newline)
-      | [] => if cfg.eof then (if cs.isEmpty then .none else .ok cs lx.bodies) else .incomplete
+      | [] => if cfg.eof then (if cs.isEmpty then .none else .ok cs) else .incomplete
       | _ => .error
 
 end YashModel.Input
